@@ -114,7 +114,9 @@ func (c *SubscriptionManager) RemoveSubscription(data model.SubscriptionManageme
 	for _, item := range c.subscriptionEntries {
 		itemAddress := item.ClientFeature.Address()
 
-		if !reflect.DeepEqual(itemAddress.Device, clientAddress.Device) ||
+		// a remote device may only remove its own subscriptions
+		if item.ClientFeature.Device().Ski() != remoteDevice.Ski() ||
+			!reflect.DeepEqual(itemAddress.Device, clientAddress.Device) ||
 			!reflect.DeepEqual(itemAddress.Entity, clientAddress.Entity) ||
 			!reflect.DeepEqual(itemAddress.Feature, clientAddress.Feature) ||
 			!reflect.DeepEqual(item.ServerFeature, serverFeature) {
